@@ -145,6 +145,9 @@ def CSafe (s : Sys) (n : Name) : Prop :=
 /-- what a schedule must satisfy for the invariant: unlocked unlinks are safe when they happen -/
 def StepSafe (s : Sys) : Step → Prop
   | .cUnlink a n => ∀ names, s.actors a = .cleaner names → names.contains n = true → CSafe s n
+  -- the journal manifest's checker has no checkNewSpecsPresent: when a journal update validates, the table files it
+  -- names must be there (the owning process only names files it has landed or opened itself)
+  | .jw a => ∀ w, s.actors a = .writer w → w.journal = true → w.pc = .compared → ∀ t ∈ w.new.specs, t ∈ s.fs.vis.tables
   | _ => True
 
 theorem holders_eq {s : Sys} (hi : Inv s) {a b : Nat} (ha : (s.actors a).holds = true) (hb : (s.actors b).holds = true) : a = b := by
